@@ -115,6 +115,8 @@ EXOTIC = [
     '1_0 0', '\uff11 0', '+1 0', '-0', '00', '01 0', '1\xa02 0', '1\x1f0', '\xa0c x',
     '1 0\r', '\r', '1 0\x00', '--1 0', '0x1 0', '1e0 0', '1 -2 0', '10 0', '1 \x0c0',
     ' 1 0', '- 1 0', '1 0 c x',
+    # characters with a meaning for str.format / % / regular expressions / shells
+    '{} 0', '1 {0} 0', 'x_{1} 0', '{x1, x2}', '1 %s 0', '%d 0', '1 $2 0', '1 \\2 0', '[1] 0', '1 * 0',
 ]
 
 TOKENS = ['0', '1', '-1', '2', '-2', '3', '-3', '9', '-9', 'p', 'cnf', 'c', 'x', '1.5', '-',
